@@ -13,6 +13,10 @@ structure Sess where
   stodo  : List Spec.Key := []
   slast  : Option Spec.Key := none
   mem    : Mem := {}
+  /-- pointer-level model run alongside, its iterator, its ledger after the step -/
+  pmodel : Option PHash.PTable := none
+  piter  : Option PHash.PIter := none
+  pmem   : Option Mem := none
   sparse : Bool := false
   quiet  : Bool := false
 
@@ -31,8 +35,10 @@ def obsS (s : Sess) : String :=
 def physM (s : Sess) (extra : String) : String :=
   match s.model with
   | none => "-"
-  | some t => fmtTable t.table s.iter ++ extra
-def invM (s : Sess) : Bool := match s.model with | none => true | some t => decide (t.Inv s.cfg)
+  | some t => fmtTable t.table s.iter s.pmodel s.piter ++ extra
+def invM (s : Sess) : Bool :=
+  (match s.model with | none => true | some t => decide (t.Inv s.cfg)) &&
+  pAgree (s.model.map (·.table)) s.iter s.pmodel s.piter s.pmem s.mem
 
 def lines (s : Sess) (hdS hdM : String) (extra : String := "") : Sess × String × String :=
   (s, s!"S {hdS} {obsS s}", s!"M {hdM} {obsM s} | {physM s extra} | {fmtMem s.mem} | {fmtFlags (invM s) s.mem}")
@@ -46,14 +52,16 @@ def step (s : Sess) (c : Cmd) : Sess × String × String :=
   let m := s.mem.begin c.sched
   let isNew := c.op == "new" || c.op == "new_default"
   let sparse := if isNew then c.str "obs" == some "sparse" else s.sparse
-  let s := { s with sparse := sparse, quiet := sparse && c.op != "observe" }
+  let pcfg := if c.op == "new" then mkCfg c else if c.op == "new_default" then defaultCfg else s.cfg
+  let (pm, pit, pmem) := pstep pcfg true s.pmodel s.piter c m
+  let s := { s with sparse := sparse, quiet := sparse && c.op != "observe", pmodel := pm, piter := pit, pmem := pmem }
   match c.op with
   | "new" | "new_default" =>
     let cfg := if c.op == "new" then mkCfg c else defaultCfg
     let cap := if c.op == "new" then c.nat "cap" 16 else Gen.HASHTABLE_DEFAULT_CAPACITY
     let (st, t, m) := HashSet.new cfg cap (if c.op == "new" then .conf else .libc) m
     let (sst, sp) := if c.fired > 0 then (Stat.errAlloc, none) else (Stat.ok, some [])
-    lines { cfg := cfg, model := t, spec := sp, mem := m, sparse := s.sparse, quiet := s.quiet } (fmtStat sst) (fmtStat st)
+    lines { cfg := cfg, model := t, spec := sp, mem := m, sparse := s.sparse, quiet := s.quiet, pmodel := s.pmodel, piter := s.piter, pmem := s.pmem } (fmtStat sst) (fmtStat st)
   | _ =>
   match s.model, s.spec with
   | some t, some sp =>
@@ -110,7 +118,7 @@ def step (s : Sess) (c : Cmd) : Sess × String × String :=
         lines { s with model := some t', spec := some sp', iter := some it', slast := last, mem := m } (fmtStat sst) (fmtStat st) (rmout noout st out)
       | none => lines { s with mem := m } "st=- noiter" "st=- noiter"
     | "destroy" =>
-      lines { cfg := s.cfg, mem := t.destroy m, sparse := s.sparse, quiet := s.quiet } "st=-" "st=-"
+      lines { cfg := s.cfg, mem := t.destroy m, sparse := s.sparse, quiet := s.quiet, pmodel := s.pmodel, piter := s.piter, pmem := s.pmem } "st=-" "st=-"
     | "observe" => lines { s with mem := m } "st=-" "st=-"
     | _ => lines { s with mem := m } "st=- badop" "st=- badop"
   | _, _ => lines { s with mem := m } "st=- nosession" "st=- nosession"
